@@ -17,20 +17,30 @@ def run(F, R):
     R.rule("C42.R2", "K-ERR (inverted) + provenance", "parse::<usize> results are matched, never unwrapped; pushed values derive from them")
     R.rule("C42.R3", "K8 order-domain evaluation", "workers_for over {0..3}x{0..3}: 1 <= r <= max(max,1) and r <= max(work,1)")
     f = F.fn(T + "::parse_cpulist")
-    pushes = [c for c in f.calls() if c.name.endswith("Vec::<T, A>::push")]
-    sorts = [c for c in f.calls() if c.name.rsplit("::", 1)[-1] in ("sort_unstable", "sort")]
-    dedups = [c for c in f.calls() if c.name.rsplit("::", 1)[-1] == "dedup"]
-    R.floor("C42.R1", "push sites in parse_cpulist", len(pushes), 2)
+    WRITERS = ("push", "extend", "extend_from_slice", "append", "insert", "extend_from_within", "resize")
+    # the output vector = what is returned
+    outv = origin(f, "c:0")
+    def on_out(c):
+        if not c.args:
+            return False
+        o = origin(f, c.args[0])
+        return o == outv or (o[0] == outv[0] == "call" and o[1] is outv[1])
+    pushes = [c for c in f.calls() if c.name.rsplit("::", 1)[-1] in WRITERS and "Vec" in (c.self_ty or "") and on_out(c)]
+    sorts = [c for c in f.calls() if c.name.rsplit("::", 1)[-1] in ("sort_unstable", "sort") and _recv_is(f, c, outv)]
+    dedups = [c for c in f.calls() if c.name.rsplit("::", 1)[-1] == "dedup" and _recv_is(f, c, outv)]
+    R.floor("C42.R1", "writes into the output vector of parse_cpulist", len(pushes), 1)
     rets = f.return_blocks()
-    ok = bool(sorts) and bool(dedups)
+    ok = bool(sorts) and bool(dedups) and bool(pushes)
+    why = "no sort/dedup of the returned vector"
     if ok:
-        s, d = sorts[0], dedups[0]
-        vec = k9.kexpr(f, pushes[0].args[0])
-        same = all(k9.kexpr(f, p.args[0]) == vec for p in pushes) and vec in k9.kexpr(f, s.args[0]) and vec in k9.kexpr(f, d.args[0])
-        order = all(f.postdominates(s.bb, p.bb) and not f.path_exists(s.bb, p.bb) for p in pushes) and f.dominates(s.bb, d.bb) and all(f.dominates(d.bb, r) for r in rets)
-        retv = k9.kexpr(f, "c:0") if False else None
-        ok = same and order
-    R.check(ok, "C42.R1", "parse_cpulist:sorted-deduped", "the result is not sorted and de-duplicated after the last push on every path", f.loc(), dict(pushes=len(pushes), sorts=len(sorts), dedups=len(dedups)))
+        # some dedup dominates every return, a sort dominates that dedup, and no write can follow the sort
+        d = [x for x in dedups if all(f.dominates(x.bb, r) for r in rets)]
+        s_ = [x for x in sorts if d and f.dominates(x.bb, d[0].bb)]
+        late = [p_ for p_ in pushes if s_ and f.path_exists(s_[0].bb, p_.bb)]
+        ok = bool(d) and bool(s_) and not late
+        why = ("the de-duplication does not run on every path to the return (it is conditional)" if not d else
+               "the sort does not precede the de-duplication on every path" if not s_ else "elements are added after the sort")
+    R.check(ok, "C42.R1", "parse_cpulist:sorted-deduped", f"the result is not sorted and de-duplicated on every path: {why} - a list with a repeated or overlapping part then yields the CPU twice", f.loc(), dict(writes=len(pushes), sorts=len(sorts), dedups=len(dedups)))
     # returned vector is the pushed one
     parses = [c for c in f.calls() if c.name.rsplit("::", 1)[-1] == "parse"]
     R.floor("C42.R2", "parse calls", len(parses), 3)
@@ -39,6 +49,8 @@ def run(F, R):
         bad = [t for t in tags if t in ("method:unwrap", "method:expect", "method:unwrap_or", "method:unwrap_or_default", "method:unwrap_or_else")]
         R.check(not bad and ("match" in tags), "C42.R2", f"parse#{n}:matched-not-unwrapped", f"a parse failure is not ignored by matching ({sorted(tags)})", f.loc(c.bb), dict(consumers=sorted(tags)))
     for n, p in enumerate(sorted(pushes, key=lambda c: (c.line, c.bb))):
+        if len(p.args) < 2:
+            continue
         w = derives_from(f, [p.args[1]], lambda k, x: x if (k == "call" and x.name.rsplit("::", 1)[-1] == "parse") else None)
         R.check(bool(w), "C42.R2", f"push#{n}:from-parsed-number", "a pushed CPU id does not derive from a parsed number", f.loc(p.bb), dict())
     # the range arm iterates RangeInclusive::new(a, b) with both bounds parsed
@@ -58,7 +70,40 @@ def run(F, R):
                 viol.append((work, mx, r))
         R.check(not viol, "C42.R3", "workers_for:bounds", f"workers_for violates its bounds at (work,max,result) = {viol[:4]}", w.loc(), dict(expression=e, points_evaluated=16))
     except ValueError as ex:
-        R.undecided("C42.R3", "workers_for:bounds", f"cannot evaluate {e}: {ex}", w.loc())
+        # outside the comparison-only fragment (arithmetic on the inputs): the finite-orderings argument does not apply.
+        # Fall back to "bounded by construction": every returned value is the result of min/clamp with the pool bound, or is
+        # returned under a dominating `work <= max` guard.  Anything else is reported as undecidable, not as a violation.
+        import guards
+        bounded = True
+        for i, j, dst, rv, line in w.stmts():
+            if dst != "0":
+                continue
+            o = origin(w, rv[1]) if rv[0] == "use" else ("rv", rv)
+            byc = o[0] == "call" and o[1].name.rsplit("::", 1)[-1] in ("min", "clamp")
+            gs = guards.guards_of(w, i, require_err=False)
+            byg = any(cd.startswith(("Le(", "Lt(")) and v is True for sb, cd, v in gs)
+            if not (byc or byg):
+                bounded = False
+        for c in w.calls():
+            if c.dest == "0" and c.name.rsplit("::", 1)[-1] not in ("min", "clamp"):
+                gs = guards.guards_of(w, c.bb, require_err=False)
+                if not any(cd.startswith(("Le(", "Lt(")) and v is True for sb, cd, v in gs):
+                    bounded = False
+        if bounded:
+            R.ok("C42.R3", "workers_for:bounds", dict(expression=e, method="bounded by construction (min/clamp or a dominating <= guard on every return)"), w.loc())
+        else:
+            R.undecided("C42.R3", "workers_for:bounds", f"workers_for is no longer built from comparisons only ({ex}) and its result is not bounded by construction: the bound r <= max(max,1) cannot be decided statically", w.loc())
+
+
+def _recv_is(f, c, outv):
+    if not c.args:
+        return False
+    o = origin(f, c.args[0])
+    n_ = 0
+    while o[0] == "call" and o[1].name.rsplit("::", 1)[-1] in ("deref_mut", "deref", "as_mut_slice", "as_mut") and n_ < 3:
+        o = origin(f, o[1].args[0])
+        n_ += 1
+    return o == outv or (o[0] == outv[0] == "call" and o[1] is outv[1])
 
 
 def _eval(e, env):
